@@ -1,6 +1,6 @@
 from driver import Unit
 
-PROBES = {1: "search_n_fwd", 2: "unique_copy_out", 3: "inplace_merge_bidi", 4: "stable_partition_bidi", 5: "shift_right_fwd"}
+PROBES = {1: "search_n_fwd", 2: "unique_copy_out", 3: "inplace_merge_bidi", 4: "stable_partition_bidi", 5: "shift_right_fwd", 6: "swap_array"}
 
 
 def main_unit(name, src, part=None, quick=8, thorough=16):
